@@ -284,6 +284,9 @@ impl<'a> Gen<'a> {
                         if !self.entities.contains(&name) {
                             decls.push(Decl::Entity(name.clone(), val));
                             self.entities.push(name);
+                        } else if self.r.chance(1, 2) {
+                            // a second declaration of the same entity: the first one binds (4.2), this one is only printed
+                            decls.push(Decl::Entity(name.clone(), val));
                         }
                     }
                     2 => {
@@ -373,12 +376,14 @@ impl<'a> Gen<'a> {
             let ekey = (uri, local.clone());
             if seen.contains(&key) || seen_exp.contains(&ekey) { continue; }
             seen.push(key); seen_exp.push(ekey);
-            let value = self.apieces(false, true);
+            let mut value = self.apieces(false, true);
+            // "]]>" is ordinary text inside an attribute value
+            if self.r.chance(1, 25) { let at = self.r.below(value.len() + 1); value.insert(at, APiece::Text(self.r.pick_s(&["]]>", "a]]>b", "]]", "]]>]]>"]).to_string())); }
             e.attrs.push(Attr { prefix, local, value });
         }
         // xml:lang declarations, nested and shadowing (what lang() and inheritance of the language depend on)
         if self.cfg.namespaces && self.r.chance(1, 6) && !e.attrs.iter().any(|a| a.local == "lang") {
-            let v = self.r.pick_s(&["en", "en-US", "de", "", "EN", "fr-CA", "e"]).to_string();
+            let v = self.r.pick_s(&["en", "en-US", "de", "", "EN", "fr-CA", "e", "\u{65e5}\u{672c}\u{8a9e}", "fr-\u{e9}", "\u{e9}n", "e\u{1d4b3}"]).to_string();
             e.attrs.push(Attr { prefix: Some("xml".to_string()), local: "lang".to_string(), value: if v.is_empty() { vec![] } else { vec![APiece::Text(v)] } });
         }
         // children
